@@ -190,12 +190,18 @@ func cmdCheck(args []string) int {
 	// rescue pass: an obligation left undecided while all cores were busy (a timeout is wall-clock) is run again on
 	// its own, one at a time, with a longer budget, before it is reported; a refuted obligation (sat) is final
 	rescued := 0
+	knownOpen := map[string]bool{}
+	for _, k := range loadKnown() {
+		if k.Property == prop && k.Status == "open" {
+			knownOpen[k.Obligation] = true
+		}
+	}
 	for _, r := range run.results {
 		if r == nil || r.Enc == nil || r.Err != "" {
 			continue
 		}
 		for _, ob := range r.Obs {
-			if ob.Status == "unknown" && ob.Kind != "cover" && rescued < 10 {
+			if ob.Status == "unknown" && ob.Kind != "cover" && rescued < 10 && !knownOpen[ob.Name] {
 				rescued++
 				ob.Stage = "rescue"
 				retry(r, ob, solveOpts{timeoutMs: 3 * timeout, workers: 1, keepDir: filepath.Join(verifDir(), "out", "failed", prop)})
